@@ -9,6 +9,8 @@ C13 — Tree assembly: one correctly named group per image, none dropped or swap
 * `metadata_children` — for EVERY leader file that parses, `/metadata` has exactly the record groups present in the leader:
   attitude, data_quality_summary, dataset_summary, platform_position, radiometric_data, transformations, plus map_projection
   exactly when the file holds at least one map-projection record (and `C04.metadata` says what each contains).
+* `product_tree` — the model of the whole `io.open` (tied to the real one by the whole-product correspondence H9): every
+  successful open is assembled from exactly the documented pieces, none dropped or swapped.
 * `root_children` — the root has exactly `summary`, `metadata`, `imagery`; root attributes: C16 `root_attrs`.
 
 `DataTree.from_dict`, `Dataset.set_coords` (coordinate promotion) are xarray's: exercised end-to-end, not proved.
@@ -16,6 +18,7 @@ C13 — Tree assembly: one correctly named group per image, none dropped or swap
 import Alos2.Proofs.AssembleProofs
 import Alos2.Proofs.Decode
 import Alos2.Proofs.MetadataNames
+import Alos2.Proofs.ProductOpen
 
 namespace Alos2.C13
 
@@ -51,6 +54,28 @@ theorem metadata_children (bs : Bytes) (v : Val) (pos' : Nat)
   refine ⟨k, na, nc, h1, h2, h3, fun a b g hg => ?_⟩
   have := hn a b g hg
   simpa [metadataNames] using this
+
+/-- THE WHOLE PRODUCT (`io.open` without caches, Model/Product.lean): whenever the open succeeds, the tree is assembled from
+    exactly the documented pieces — summary groups from the parsed summary, file roles from its product-information section,
+    root attributes = the documented volume-directory fields + the reference document, `/metadata` = `transform_metadata` of the
+    parsed leader (C04 `metadata`: the documented tree), `/imagery` = every image file the summary names, opened by the image
+    reader (C03 `image_group`, C01 `layout_ranges`), keyed by group name in summary order; with pairwise distinct group names
+    no image is dropped or replaced -/
+theorem product_tree (fs : Files) (rpc : Nat) (p : Product) (h : openProduct fs rpc = .ok p) :
+    ∃ (sections : List (String × Section)) (pdi : Section) (vol led trl : String) (imgs : List String)
+      (vb lb : Bytes) (vrec lrec : Val) (vpos lpos : Nat) (vattrs : KVs Leaf) (groups : List (String × ImageGroup)),
+      transformSummary sections = .ok p.summary ∧
+      (sections.find? (fun s => s.1 = "pdi")).map Prod.snd = some pdi ∧
+      fileRoles pdi = .ok (vol, led, imgs, trl) ∧
+      fs.get vol = some vb ∧ parse Gen.volumeDirectoryRecord [] vb 0 = .ok (vrec, vpos) ∧
+      p.rootAttrs = kvUnion vattrs [("reference_document", .cstr referenceDocument)] ∧
+      sortByKey vattrs = PVal.mapKvs (Sym.eval vrec) Spec.rootAttrs ∧
+      fs.get led = some lb ∧ parse Gen.sarLeaderRecord [] lb 0 = .ok (lrec, lpos) ∧
+      transformLeaderMetadata realLeafFns3 lrec.toPVal = some p.metadata ∧
+      imgs.mapM (openNamed fs rpc) = .ok groups ∧
+      p.imagery = groups.foldl (fun acc kv => assocSet acc kv.1 kv.2) [] ∧
+      ((groups.map Prod.fst).Nodup → p.imagery = groups) :=
+  openProduct_tree fs rpc p h
 
 theorem root_children : rootChildren = ["summary", "metadata", "imagery"] := rfl
 
